@@ -642,6 +642,134 @@ def so_crosscheck(results):
 
 
 # ------------------------------------------------------------------------------------------------
+# source-level pieces of lib/include/mb_mgr_job_api.h: calc_cipher_tab_index(), ENCRYPT_DECRYPT_GAP
+# ------------------------------------------------------------------------------------------------
+JOB_FIELD_WIDTH = {"cipher_mode": 32, "cipher_direction": 32, "hash_alg": 32, "key_len_in_bytes": 64}
+
+
+def c_tokens(src):
+    toks = []
+    i = 0
+    while i < len(src):
+        c = src[i]
+        if c.isspace():
+            i += 1
+        elif src.startswith("->", i):
+            toks.append("->"); i += 2
+        elif src.startswith("<<", i) or src.startswith(">>", i):
+            toks.append(src[i:i + 2]); i += 2
+        elif c in "()+-&":
+            toks.append(c); i += 1
+        elif c.isdigit():
+            m = re.match(r"(0x[0-9a-fA-F]+|\d+)([uUlL]*)", src[i:])
+            toks.append(("num", int(m.group(1), 0), m.group(2))); i += len(m.group(0))
+        elif c.isalpha() or c == "_":
+            m = re.match(r"\w+", src[i:])
+            toks.append(("id", m.group(0))); i += len(m.group(0))
+        else:
+            raise T1bError("calc_cipher_tab_index: unexpected character %r in %r" % (c, src))
+    return toks
+
+
+class CExpr:
+    """precedence climbing for the C subset  + - << >> &  ( )  job->field  CONSTANT  literal;
+    returns (gallina term, width) following the usual arithmetic conversions for unsigned operands"""
+    PREC = {"&": 1, "<<": 2, ">>": 2, "+": 3, "-": 3}
+
+    def __init__(self, toks, enum_consts):
+        self.t, self.i, self.enum = toks, 0, enum_consts
+
+    def peek(self):
+        return self.t[self.i] if self.i < len(self.t) else None
+
+    def take(self):
+        x = self.t[self.i]; self.i += 1
+        return x
+
+    def primary(self):
+        x = self.take()
+        if x == "(":
+            e = self.expr(0)
+            if self.take() != ")":
+                raise T1bError("calc_cipher_tab_index: missing )")
+            return e
+        if isinstance(x, tuple) and x[0] == "num":
+            return (str(x[1]), 64 if "l" in x[2].lower() else 32)
+        if isinstance(x, tuple) and x[0] == "id":
+            if x[1] == "job":
+                if self.take() != "->":
+                    raise T1bError("calc_cipher_tab_index: expected job->field")
+                f = self.take()
+                if not (isinstance(f, tuple) and f[0] == "id" and f[1] in JOB_FIELD_WIDTH):
+                    raise T1bError("calc_cipher_tab_index: unknown job field %r" % (f,))
+                return (f[1], JOB_FIELD_WIDTH[f[1]])
+            if x[1] in self.enum:
+                return (x[1], 32)
+            raise T1bError("calc_cipher_tab_index: unknown identifier %s" % x[1])
+        raise T1bError("calc_cipher_tab_index: unexpected token %r" % (x,))
+
+    def expr(self, minp):
+        lhs = self.primary()
+        while True:
+            op = self.peek()
+            if not isinstance(op, str) or op not in self.PREC or self.PREC[op] < minp:
+                return lhs
+            self.take()
+            rhs = self.expr(self.PREC[op] + 1)
+            (a, wa), (b, wb) = lhs, rhs
+            if op in ("<<", ">>"):
+                w = wa
+                lhs = ("(c_shl %d %s %s)" % (w, a, b), w) if op == "<<" else ("(c_shr %s %s)" % (a, b), w)
+            else:
+                w = max(wa, wb)
+                name = {"+": "c_add %d" % w, "-": "c_sub %d" % w, "&": "c_and"}[op]
+                lhs = ("(%s %s %s)" % (name, a, b), w)
+
+
+def source_pieces():
+    hdr = os.path.join(REPO, "lib", "include", "mb_mgr_job_api.h")
+    src = open(hdr).read()
+    src_nc = re.sub(r"/\*.*?\*/", " ", src, flags=re.S)
+    m = re.search(r"calc_cipher_tab_index\s*\(\s*const\s+IMB_JOB\s*\*\s*job\s*\)\s*\{(.*?)\}", src_nc, re.S)
+    if not m:
+        raise T1bError("calc_cipher_tab_index(const IMB_JOB *job) not found")
+    body = m.group(1).strip()
+    mr = re.match(r"^return\s+(.*?);\s*$", body, re.S)
+    if not mr:
+        raise T1bError("calc_cipher_tab_index: body is not a single return statement: %r" % body)
+    rt = re.search(r"__forceinline\s+(\w[\w\s]*?)\s+calc_cipher_tab_index", src_nc)
+    if not rt or rt.group(1).strip() != "unsigned":
+        raise T1bError("calc_cipher_tab_index: return type is not `unsigned`")
+    expr_src = " ".join(mr.group(1).split())
+    p = CExpr(c_tokens(expr_src), {"IMB_DIR_ENCRYPT", "IMB_DIR_DECRYPT"})
+    term, w = p.expr(0)
+    if p.i != len(p.t):
+        raise T1bError("calc_cipher_tab_index: trailing tokens")
+    mg = re.search(r"^#define\s+ENCRYPT_DECRYPT_GAP\s+(\d+)\s*$", src_nc, re.M)
+    if not mg:
+        raise T1bError("ENCRYPT_DECRYPT_GAP not found")
+    # the four dispatch sites must index the tables the way the model assumes
+    sites = {
+        "SUBMIT_JOB_CIPHER": r"const unsigned idx = calc_cipher_tab_index\(job\);.*?return tab_submit_cipher\[idx\]\(state, job\);",
+        "FLUSH_JOB_CIPHER": r"const unsigned idx = calc_cipher_tab_index\(job\);\s*return tab_flush_cipher\[idx\]\(state, job\);",
+        "SUBMIT_JOB_HASH": r"return tab_submit_hash\[job->hash_alg\]\(state, job\);",
+        "FLUSH_JOB_HASH": r"return tab_flush_hash\[job->hash_alg\]\(state, job\);",
+        "CALL_SUBMIT_CIPHER": r"const unsigned c_idx = job->suite_id\[0\];\s*return tab_submit_cipher\[c_idx\]\(state, job\);",
+        "CALL_FLUSH_CIPHER": r"const unsigned c_idx = job->suite_id\[0\];\s*return tab_flush_cipher\[c_idx\]\(state, job\);",
+        "CALL_SUBMIT_HASH": r"const unsigned h_idx = job->suite_id\[1\];\s*return tab_submit_hash\[h_idx\]\(state, job\);",
+        "CALL_FLUSH_HASH": r"const unsigned h_idx = job->suite_id\[1\];\s*return tab_flush_hash\[h_idx\]\(state, job\);",
+        "set_cipher_suite_id": r"const unsigned c_idx = calc_cipher_tab_index\(job\);\s*const unsigned h_idx = \(unsigned\) job->hash_alg;\s*id\[0\] = c_idx;\s*id\[1\] = h_idx;",
+    }
+    for fn, pat in sites.items():
+        mf = re.search(r"\n%s\s*\([^)]*\)\s*\{(.*?)\n\}" % fn, src_nc, re.S)
+        if not mf:
+            raise T1bError("function %s not found in mb_mgr_job_api.h" % fn)
+        if not re.search(pat, mf.group(1), re.S):
+            raise T1bError("%s no longer has the modelled shape:\n%s" % (fn, mf.group(1)))
+    return dict(expr_src=expr_src, term=term, width=w, gap=int(mg.group(1)))
+
+
+# ------------------------------------------------------------------------------------------------
 # output
 # ------------------------------------------------------------------------------------------------
 def coq_str(s):
@@ -663,7 +791,7 @@ def ident(s):
     return re.sub(r"[^A-Za-z0-9_]", "_", s)
 
 
-def generate(results, mgr_off):
+def generate(results, mgr_off, srcp):
     L = ["(* GENERATED by translators/t1b_tables.py -- DO NOT EDIT.",
          "   Source: the rebuilt manager objects <build>/lib/lib/CMakeFiles/IPSec_MB.dir/<variant>/mb_mgr_<variant>.c.o",
          "   (nm -S, readelf -r, objdump -d -r), cross-checked against libIPSec_MB.so (symbols + RELATIVE relocations).",
@@ -673,6 +801,7 @@ def generate(results, mgr_off):
          "From Coq Require Import String List NArith.",
          "Import ListNotations.",
          "Local Open Scope string_scope.",
+         "Local Open Scope N_scope.",
          "",
          "Record wrapper := mk_wrapper {",
          "  w_name : string;        (* symbol name of the table entry *)",
@@ -689,6 +818,27 @@ def generate(results, mgr_off):
          "  vt_flush_hash : list (option wrapper)",
          "}.",
          ""]
+    L += ["(* ---- C arithmetic of the generated index expression (unsigned operands only) ---- *)",
+          "Definition c_mask (w : N) (x : N) : N := N.land x (N.ones w).",
+          "Definition c_add (w : N) (a b : N) : N := c_mask w (a + b).",
+          "Definition c_sub (w : N) (a b : N) : N := c_mask w (a + N.shiftl 1 w - c_mask w b).",
+          "Definition c_shl (w : N) (a n : N) : N := c_mask w (N.shiftl a n).",
+          "Definition c_shr (a n : N) : N := N.shiftr a n.",
+          "Definition c_and (a b : N) : N := N.land a b.",
+          "",
+          "(* lib/include/mb_mgr_job_api.h: #define ENCRYPT_DECRYPT_GAP *)",
+          "Definition ENCRYPT_DECRYPT_GAP : N := %d." % srcp["gap"],
+          "",
+          "(* calc_cipher_tab_index(): image of",
+          "     return %s;" % srcp["expr_src"],
+          "   operand widths: cipher_mode, cipher_direction, enum constants, literals 32 bit; key_len_in_bytes 64 bit;",
+          "   result converted to `unsigned` (32 bit).  The enum constants are parameters: instantiate with GenEnums. *)",
+          "Definition gen_calc_cipher_tab_index (IMB_DIR_ENCRYPT IMB_DIR_DECRYPT cipher_mode key_len_in_bytes cipher_direction : N) : N :=",
+          "  c_mask 32 %s." % srcp["term"],
+          "",
+          "(* the dispatch sites SUBMIT_JOB_CIPHER/HASH, FLUSH_JOB_CIPHER/HASH, CALL_SUBMIT_*/CALL_FLUSH_*, set_cipher_suite_id",
+          "   were matched textually against the shapes modelled in Mgr/Dispatch.v (translator fails otherwise) *)",
+          ""]
     L.append("(* IMB_MGR.*_ooo members in declaration order *)")
     ooo = [nm for off, (nm, sz) in sorted(mgr_off.items()) if nm.endswith("_ooo")]
     L.append("Definition all_ooo_members : list string := %s." % coq_list([coq_str(x) for x in ooo]))
@@ -735,13 +885,13 @@ def extract():
     if len(results) < 8:
         raise T1bError("only %d variants found under %s" % (len(results), OBJROOT))
     nchecked = so_crosscheck(results)
-    return results, mgr_off, nchecked
+    return results, mgr_off, nchecked, source_pieces()
 
 
 def main(argv=None):
     argv = sys.argv[1:] if argv is None else argv
-    results, mgr_off, nchecked = extract()
-    txt = generate(results, mgr_off)
+    results, mgr_off, nchecked, srcp = extract()
+    txt = generate(results, mgr_off, srcp)
     if "--json" in argv:
         json.dump(results, open(argv[argv.index("--json") + 1], "w"), indent=1)
     if "--check" in argv:
